@@ -178,9 +178,61 @@ def _shard(shard):
     return acc
 
 
+def _file_shard(t):
+    """The same through a container: block with gaps, then a block of another kind behind it, close,
+    reopen, read back (what follows a block must not eat into it: the size the block declares counts)."""
+    import os
+
+    acc = core.Acc()
+    n = specs.lib()
+    tmp = env.scratch_dir("c05f")
+    follower = gen.events([gen.mk_event("after", 1, 3)])
+    k = 0
+    for nfr in (3, 4, 5):
+        for m in gen.all_masks(nfr):
+            for items in (1, 2):
+                sp = gen.rle_block(t, nfr, [m] if items == 1 else [m, tuple(reversed(m))], chans=[3, 1])
+                k += 1
+                path = os.path.join(tmp, f"f{k}.tdf")
+                acc.n["states"] += 1
+                acc.n["evaluations"] += 1
+                if _nontrivial(sp):
+                    acc.n["nontrivial"] += 1
+                wit = {"file": True, "spec": specs.dump(sp), "opts": {}}
+                try:
+                    with n.tdf.Tdf.new(path).allow_write() as f:
+                        f.add_block(specs.build(sp))
+                        f.add_block(specs.build(follower))
+                    with n.tdf.Tdf(path) as f:
+                        with env.poisoned_allocator(0x5A):
+                            got = specs.extract(f.get_block(0))
+                    acc.n["transitions"] += 3
+                    df = specs.diff(sp, got)
+                    if df:
+                        acc.violation("file-roundtrip-loses-samples", f"{PROP}:{R.NAMES[t]}:file-roundtrip:{df.split(':')[0].split('[')[0]}", wit,
+                                      f"{gen.spec_label(sp)} followed by another block, reopened: {df}")
+                    else:
+                        acc.outcomes[f"{R.NAMES[t]}:file:gaps-exact"] += 1
+                        acc.n["traces"] += 1
+                except Exception as e:  # noqa: BLE001
+                    acc.violation("file-roundtrip-raises", f"{PROP}:{R.NAMES[t]}:file-roundtrip:{type(e).__name__}", wit,
+                                  f"{gen.spec_label(sp)}: {type(e).__name__}: {e}")
+                finally:
+                    if os.path.exists(path):
+                        os.unlink(path)
+    acc.sample({"file": f"{R.NAMES[t]} block with every mask n in 3..5 (1 and 2 items) + a following block, reopened"}, 1)
+    return acc
+
+
+def _any(shard):
+    if shard[0] == "file":
+        return _file_shard(shard[1])
+    return _shard(shard)
+
+
 def run(tier):
     _shard.tier = tier
-    acc = core.pmap(__name__, "_shard", shape.shards(gen.RLE_TYPES, 4))
+    acc = core.pmap(__name__, "_any", [("file", t) for t in gen.RLE_TYPES] + shape.shards(gen.RLE_TYPES, 4))
     acc.merge(core.pmap("mc.editwalk", "run_shard", editwalk.shards(PROP, tier)))
     return acc
 
@@ -188,6 +240,13 @@ def run(tier):
 def replay(w):
     if w.get("editwalk"):
         return editwalk.replay(w)
+    if w.get("file"):
+        sp = specs.load(w["spec"])
+        acc = _file_shard(sp["type"])
+        for v in acc.violations:
+            if v["witness"]["spec"] == w["spec"]:
+                return core.Violation(v["clause"], v["sig"], w, v["detail"])
+        return None
     try:
         check_one(specs.load(w["spec"]), w["opts"], core.Acc(), w.get("tag", ""))
     except core.Violation as v:
